@@ -310,6 +310,6 @@ end Raw
 
 def defaultsLine (id : String) : String :=
   let f : Flags := {}
-  s!"obs {id} table={hexStr f.table} row={hexStr f.row} col={hexStr f.col} ignore={hexStr f.ignore} filter={hexStr f.filter} alpha={hexStr f.alpha} confidence={hexStr f.confidence} format={hexStr f.format}"
+  s!"obs {id} table={hexStr f.table} row={hexStr f.row} col={hexStr f.col} ignore={hexStr f.ignore} filter={hexStr f.filter} alpha={hexStr f.alpha} confidence={hexStr f.confidence} format={hexStr f.format} src=help"
 
 end Tab.DriverLib
